@@ -625,6 +625,33 @@ Proof.
     exists m. split; [exact Hm|]. apply rounds_to_sound. exact R.
 Qed.
 
+(* "A condition is omitted only if it is implied by the ones kept": a condition that no output condition covers holds
+   whenever the equalities of the input hold (for an equality: whenever it is defined - it is an identity); and every
+   equality is either covered (kept) or such an identity. *)
+Theorem check_pre_omitted d hs conds out :
+  check_pre d hs conds out = true ->
+  forall c, In c conds ->
+    cover d (if is_eq c then [] else filter is_eq conds) hs out c = [] ->
+    forall rho, cdefined rho c -> sat_all rho (if is_eq c then [] else filter is_eq conds) -> sat rho c.
+Proof.
+  unfold check_pre. set (eqs := filter is_eq conds).
+  set (use := fun c : cond => if is_eq c then [] else eqs).
+  set (f := fun c => cover d (use c) hs out c).
+  intros H.
+  change (forallb (fun cc : cond * list mcond =>
+                     match snd cc with [] => trivial (fst cc) || implied (use (fst cc)) (fst cc) | _ :: _ => true end)
+                  (map (fun c => (c, f c)) conds) &&
+          forallb (fun o => existsb (fun m => rounds_to d m o) (flat_map snd (map (fun c => (c, f c)) conds))) out = true) in H.
+  apply andb_true_iff in H. destruct H as [H1 _]. rewrite forallb_forall in H1.
+  intros c Hc Hcov rho D Hs.
+  specialize (H1 (c, f c)). cbn [fst snd] in H1.
+  assert (Hin : In (c, f c) (map (fun c => (c, f c)) conds)) by (apply in_map_iff; exists c; auto).
+  specialize (H1 Hin). change (f c) with (cover d (use c) hs out c) in H1. unfold use in H1 at 1.
+  rewrite Hcov in H1. apply orb_true_iff in H1. destruct H1 as [T|I].
+  - apply trivial_sound; assumption.
+  - eapply implied_sound; eauto.
+Qed.
+
 Theorem check_under_sound d assumptions hs c o m :
   check_under d assumptions hs c o = Some m ->
   rounded d m o /\
